@@ -502,7 +502,91 @@ def run(ctx):
                 ctx.check(ok_all, "R06.7", f, "moved-from-%s-zeroed:%s" % (fld, tag),
                           "%s moves the storage out of `%s` but leaves %s.%s unchanged: the moved-from container reports a %s it no longer has (null storage)"
                           % (short(f.qual), src, src, fld, "size" if fld == "size_" else "capacity"), (f, n.get("ln")))
-    ctx.need("R06.3", "storage subscripts", n_sub, 24)
+    # ---- R06.9: the iterator accessors delimit exactly the filled prefix [0, size_)
+    ctx.rule("R06.9", "begin()/cbegin() address slot 0, end()/cend() slot size_ (reverse iterators are built on them): iteration never reaches an unfilled slot")
+    n_ptr = 0
+    n_acc = 0
+    WANT = {"begin": "first", "cbegin": "first", "end": "last", "cend": "last"}
+    REV = {"rbegin": "last", "crbegin": "last", "rend": "first", "crend": "first"}
+
+    def slot_address(x):
+        """index node / 0 if x is the address of a storage slot: &data_[k], data_.get() + k, data_.get()"""
+        x = ir.unwrap(x)
+        if not isinstance(x, dict):
+            return None
+        u = ir.as_unop(x)
+        if u and u[0] == "&":
+            su = ir.unwrap(u[1])
+            if isinstance(su, dict) and su.get("k") == "subscript":
+                return storage_subscript(su)
+            return None
+
+        def is_get(y):
+            y = ir.unwrap(y)
+            return isinstance(y, dict) and y.get("k") == "call" and short(y.get("name") or "") == "get" and y.get("this") is not None and fmt(ir.unwrap(y["this"])) == "data_"
+        if is_get(x):
+            return {"k": "lit", "t": "int", "v": 0}
+        bo = ir.as_binop(x)
+        if bo and bo[0] == "+":
+            if is_get(bo[1]):
+                return bo[2]
+            if is_get(bo[2]):
+                return bo[1]
+        return None
+
+    for f in sorted(methods, key=lambda f: (f.line, f.id)):
+        role = WANT.get(f.name) or REV.get(f.name)
+        if role is None or f.params:
+            continue
+        n_acc += 1
+        rr = [ir.unwrap(e["expr"].get("e")) for _, _, e in f.roots() if e["expr"].get("k") == "return" and e["expr"].get("e") is not None]
+        tag = f.name + (":const" if f.flags.get("const") else "")
+        if len(rr) != 1:
+            ctx.broken("R06.9", f, "iterator-bound:" + tag, "%s has %d return statements: accessor shape not recognised" % (f.name, len(rr)), f)
+            continue
+        x = rr[0]
+        if f.name in REV:
+            # reverse_iterator(<forward accessor of the opposite end>) or reverse_iterator(<slot address>)
+            ps = None
+            if isinstance(x, dict) and x.get("k") in ("construct", "paren_list"):
+                ps = [a for a in x.get("args", x.get("kids", [])) if not (isinstance(a, dict) and a.get("k") == "defarg")]
+            elif isinstance(x, dict) and x.get("k") == "cast":
+                ps = [x["e"]]
+            elif isinstance(x, dict) and x.get("k") == "call" and (x.get("name") or "").endswith("make_reverse_iterator"):
+                ps = x.get("args", [])
+            if not ps or len(ps) != 1:
+                ctx.broken("R06.9", f, "iterator-bound:" + tag, "%s returns %s: not a reverse_iterator built from one forward position" % (f.name, fmt(x)), f)
+                continue
+            x = ir.unwrap(ps[0])
+            if isinstance(x, dict) and x.get("k") == "call" and short(x.get("name") or "") in WANT and not [a for a in x.get("args", []) if a.get("k") != "defarg"]:
+                got = WANT[short(x["name"])]
+                ctx.check(got == role, "R06.9", f, "iterator-bound:" + tag, "%s() is built on %s(): reverse iteration starts/stops at the wrong end" % (f.name, short(x["name"])), f, why_ok="reverse of %s()" % short(x["name"]))
+                continue
+        idx = slot_address(x)
+        if idx is None:
+            ctx.broken("R06.9", f, "iterator-bound:" + tag, "%s returns %s: not an address into the storage in a recognised form" % (f.name, fmt(rr[0])), f)
+            continue
+        if not (ir.as_unop(x) and ir.as_unop(x)[0] == "&"):
+            n_ptr += 1  # pointer-arithmetic form: not among the subscripts R06.3 counted
+        a = FVAnalysis(ctx, f, cls)
+        z0 = invariant(Zone())
+        IN = a.run(z0)
+        t = a.za.lin(idx)
+        want_var = Z if role == "first" else "size_"
+        ok = t is not None and t[1] == 0 and t[0] == want_var
+        if t is not None and not ok and role == "last" and t[0] not in (Z,):
+            # equal to size_ by the path condition?
+            rb = f.return_blocks()
+            zz = IN.get(rb[0]) if rb else None
+            if zz is not None:
+                zz = zz.copy()
+                zz.close()
+                ok = zz.entails(t[0], "size_", -t[1]) and zz.entails("size_", t[0], t[1])
+        ctx.check(bool(ok), "R06.9", f, "iterator-bound:" + tag,
+                  "%s() yields the address of slot `%s` instead of slot %s: the range [begin, end) %s" % (f.name, fmt(idx), "0" if role == "first" else "size_",
+                  "reaches slots that were never filled (capacity instead of size)" if role == "last" else "does not start at the first element"), f, why_ok="slot " + fmt(idx))
+    ctx.need("R06.9", "iterator accessors of fixed_vector", n_acc, 8)
+    ctx.need("R06.3", "storage subscripts and slot addresses", n_sub + n_ptr, 24)
     ctx.need("R06.1", "constructors", n_ctor, 5)
     # std::get<I>
     gets = [f for f in prog.fns.values() if f.has_cfg and f.qual == "std::get" and "fixed_vector" in f.id and f.is_pattern]
